@@ -26,6 +26,7 @@ structure U (K : Type) where
   tocc : List (Node × Node × K) := []          -- the shared attribute tOccupied
   hit : List (Node × K × Option Nat) := []     -- tHitting and hittingProcess (instance) — shared, undecorated
   infv : List (Node × Node × K) := []          -- per-edge infectivity (variable infection)
+  vacc : List (Node × K) := []                 -- vaccinated nodes with their vaccination time (shared, undecorated attributes)
   rng : List (Rnd K) := []
   log : Array String := #[]                    -- results of API calls made by scripted handlers in the current event
   mon : Series K := {}
@@ -59,6 +60,9 @@ inductive Act (K : Type) where
   | rmEdge (inst : Nat) (n m : Node)
   | observe                          -- Monitor.observe: time and len() of every locus
   | trial (p : K) (inst c : Nat) (thenOcc : Bool)  -- SIvR.infect: if rng.random() > p then changeCompartment, (occ, hit)
+  | vaccinate                                       -- Vaccinate.vaccinate → SIvR.vaccinateNode(t, n)
+  | sivrInfect (inst c : Nat) (offset eff : K) (locN locV : Nat)   -- SIvR.infect
+  | plainLeave (loc : Nat)                          -- locus.leaveHandler(g, n) of a plain locus
   | adAdd (loc c : Nat) (mode : AdMode)            -- AddDelete.add
   | adDel (loc : Nat) (mode : AdMode)              -- AddDelete.delete
 
@@ -233,6 +237,23 @@ def runActs (cfg : Cfg K) : List (Act K) → K → Elem → Prog K (U K) Elem
   | .observe :: rest, t, e =>
     .get fun u => .put { u with mon := { times := u.mon.times ++ [t], vals := u.mon.vals ++ [lociSizes u] } }
       (runActs cfg rest t e)
+  | .vaccinate :: rest, t, e =>
+    .get fun u => .put { u with vacc := (e.1, t) :: u.vacc.filter (fun v => v.1 != e.1) } (runActs cfg rest t e)
+  | .plainLeave loc :: rest, t, e =>
+    .get fun u => .put { u with w := updLocus u.w loc (·.discard (eN e.1)) } (runActs cfg rest t e)
+  | .sivrInfect inst c offset eff locN locV :: rest, t, e =>
+    .get fun u =>
+      let take := fun (u : U K) (loc : Nat) =>
+        let u1 := { u with w := updLocus (changeCompartment cfg.comp u.w inst e.1 c) loc (·.add (eN e.1)) }
+        markHit (markOccupied u1 inst e t) (some inst) e.1 t
+      match u.vacc.lookup e.1 with
+      | some tv =>
+        if Arith.add tv offset < t then
+          match popF u with
+          | none => .put { u with err := some "rng: random() expected in SIvR.infect" } .done
+          | some (r, u') => if eff < r then .put (take u' locV) (runActs cfg rest t e) else .put u' (runActs cfg rest t e)
+        else .put (take u locN) (runActs cfg rest t e)
+      | none => .put (take u locN) (runActs cfg rest t e)
   | .adAdd loc c mode :: rest, t, e => .get fun u => .put (adAdd cfg.comp loc c mode u) (runActs cfg rest t e)
   | .adDel loc mode :: rest, t, e => .get fun u => .put (adDel cfg.comp loc mode e.1 u) (runActs cfg rest t e)
   | .trial p inst c thenOcc :: rest, t, e =>
